@@ -46,17 +46,9 @@ class JsEval:
         return out
 
     def run(self, src):
-        # a source text that starts with `{` is a block statement (this is how `{{ expr }}` templates reach the
-        # script engine: two nested blocks whose completion value is the value of expr)
-        st = src.strip()
-        while st.startswith("{") and st.endswith("}"):
-            st = st[1:-1].strip()
-        src = st if st != src.strip() else src
-        if src.strip() == "":
-            return jnull()
         self.t = self.tokenize(src)
         self.i = 0
-        # script form
+        # arrow-function script of the code package
         if self.t[:5] == ["(", "(", ")", "=>", "{"]:
             self.i = 5
             ret = jnull()
@@ -73,10 +65,11 @@ class JsEval:
                 if self.peek() == ";":
                     self.i += 1
                 if returned:
-                    # skip anything after return
                     depth = 0
                     while not (self.peek() == "}" and depth == 0):
-                        if self.peek() in "{":
+                        if self.peek() is None:
+                            raise Unsupported("js model: unterminated script")
+                        if self.peek() == "{":
                             depth += 1
                         elif self.peek() == "}":
                             depth -= 1
@@ -86,14 +79,37 @@ class JsEval:
             self.expect("(")
             self.expect(")")
             return ret
-        v = self.expr()
-        while self.peek() == ";":
-            self.i += 1
-            if self.peek() is None:
-                break
-            v = self.expr()
+        v = self.program(top=True)
         if self.peek() is not None:
-            raise Unsupported("js model: trailing tokens %r" % self.t[self.i :])
+            raise JsException("SyntaxError: unexpected token %s" % self.peek())
+        return v
+
+    def program(self, top=False):
+        """statement*  — a `{` at statement start opens a block (this is how `{{ expr }}` templates reach the
+        script engine: two nested blocks whose completion value is the value of expr)."""
+        v = jnull()
+        while self.peek() is not None and self.peek() != "}":
+            if self.peek() == "{":
+                self.i += 1
+                v = self.program()
+                if self.peek() != "}":
+                    raise JsException("SyntaxError: unterminated block")
+                self.i += 1
+                continue
+            if self.peek() == ";":
+                self.i += 1
+                continue
+            v = self.expr()
+            nxt = self.peek()
+            if nxt == ";":
+                self.i += 1
+            elif nxt is None or nxt == "}":
+                pass
+            elif nxt == ":":
+                raise Unsupported("js model: labelled statement / object literal at statement start")
+            else:
+                # two statements on one line without a separator
+                raise JsException("SyntaxError: unexpected token %s" % nxt)
         return v
 
     def peek(self):
